@@ -21,6 +21,9 @@ def run(c):
     c.extra['rule'] = ('every (stored content over 4 keys, input sequence, decision per key, strategy) case of the '
                        'specification x key concretisations on a real LMDB; distinct = table rows')
     c.traces += res['counters'].get('rows', 0)
+    # the same steps on DBIs of several hundred entries with values of very different lengths (pages split and
+    # records move while LS iterates and writes): content against the per-key last-writer-wins reference
+    vlib.absorb(c, vlib.run_harness(['bulk', 'C19'], timeout=600))
     c.assumptions += ['keys abstracted to 4 ordered keys; LMDB cursor semantics after Del/Put assumed as modelled (next stored key greater than the last returned)',
                       'iterator decisions are keep / replace / delete per key; replace encodes whether a stored value was handed to the iterator']
 
